@@ -998,7 +998,7 @@ def _config_fields(ctx, col):
     for cls in ctx.problems():
         r = ctx.ct.lookup(cls, "__init__")
         owner, fn = r
-        ok = _config_or_kwargs(fn.body)
+        ok = _config_or_kwargs(fn.body) or _config_or_kwargs_semantic(ctx, cls)
         col.add("R20.8", f"{cls.name}.__init__", owner.module.relpath, fn.lineno, ok,
                 "self.config = config if config is not None else self.Config(**kwargs)" if ok else
                 "constructor does not follow the config-or-kwargs protocol of its siblings", text="config or kwargs")
@@ -1008,6 +1008,27 @@ def _config_fields(ctx, col):
     col.add("R20.8", "Solver._setup_config", owner.module.relpath, fn.lineno, ok,
             "self.config = config if config is not None else self.Config(**kwargs)" if ok else
             "solver does not follow the config-or-kwargs protocol", text="config or kwargs")
+
+
+def _config_or_kwargs_semantic(ctx, cls) -> bool:
+    """The same protocol decided by interpreting the constructor twice: with a configuration object `self.config` is that
+    object; with None and a keyword argument it is `Config(**kwargs)` of the class's own Config."""
+    from ..interp import Interp, Unsupported
+    from ..terms import NONE, S
+
+    ca = ctx.ct.class_attr(cls, "Config")
+    cfg = ctx.ct.class_of_dotted(ctx.ct.resolve_name(ca[0].module, ast.unparse(ca[1]))) if ca else None
+    if cfg is None:
+        return False
+    out = []
+    for given, kw in ((("obj", "config"), {}), (NONE, {"some_field": S("KWARG")})):
+        I = Interp(ctx.ct, cls, {})
+        try:
+            I.call_method("__init__", [given], dict(kw))
+        except (Unsupported, AnalysisError):
+            pass  # what follows the preamble may need concrete fields; the preamble has run by then
+        out.append(I.attrs.get("config"))
+    return out[0] == ("obj", "config") and out[1] == ("app", "new:" + cfg.name, (S("KWARG"),))
 
 
 def _config_or_kwargs(body) -> bool:
